@@ -27,6 +27,7 @@ RULE_TEXT = (
     "C15.f SET/UNSET descriptors update the connection's own mapping and become the success no-op; C15.g stored value "
     "rendered in the Snowflake dialect; C15.h SET/UNSET stage after the folding stage; C15.i every state the "
     "substitution reads is updated by both SET and UNSET."
+    " C15.e also: a string-literal branch of the reference pattern must know backslash escapes."
 )
 TRUSTED = ["CPython ast and re._parser", "re.sub interprets backslash escapes in a string replacement"]
 
